@@ -134,9 +134,8 @@ type mCase struct {
 }
 
 // checkIntrospection compares InputNames / InputShapes / InputDimSize with what the specification derives from the signature.
-func checkIntrospection(model *gonnx.Model, mc *mCase) []ModeResult {
-	var out []ModeResult
-	o := guard(func() Observation {
+func checkIntrospectionOnce(model *gonnx.Model, mc *mCase) Observation {
+	return guard(func() Observation {
 		names := model.InputNames()
 		if fmt.Sprint(names) != fmt.Sprint(mc.Introspect.Names) {
 			return Observation{Kind: "nil", Note: fmt.Sprintf("InputNames %v, expected %v", names, mc.Introspect.Names)}
@@ -175,11 +174,51 @@ func checkIntrospection(model *gonnx.Model, mc *mCase) []ModeResult {
 		}
 		return Observation{Kind: "value"}
 	})
+}
+
+func checkIntrospection(model *gonnx.Model, mc *mCase) []ModeResult {
+	var out []ModeResult
+	o := checkIntrospectionOnce(model, mc)
 	v := "pass"
 	if o.Kind != "value" {
 		v = "violation:introspection: " + o.Short()
 	}
 	out = append(out, ModeResult{"introspect", v, ""})
+	if v == "pass" {
+		// what the introspection methods hand out is the caller's to keep and to write into (an application fills the batch size it
+		// has at hand into the reported shape to size its buffers): the model reports and enforces the DECLARED signature afterwards
+		// as before. Everything returned is scribbled over, then asked for again (the calls of the case follow).
+		o2 := guard(func() Observation {
+			shapes := model.InputShapes()
+			for name, sh := range shapes {
+				for i := range sh {
+					sh[i].Size, sh[i].IsDynamic = 97, false
+				}
+				shapes[name] = append(sh, sh...)
+			}
+			shapes["scribbled"] = nil
+			for _, names := range [][]string{model.InputNames(), model.OutputNames(), model.ParamNames()} {
+				for i := range names {
+					names[i] = "scribbled"
+				}
+			}
+			for _, sh := range model.OutputShapes() {
+				for i := range sh {
+					sh[i].Size, sh[i].IsDynamic = 97, false
+				}
+			}
+			return Observation{Kind: "value"}
+		})
+		if o2.Kind == "value" {
+			again := *mc
+			o3 := checkIntrospectionOnce(model, &again)
+			if o3.Kind != "value" {
+				out = append(out, ModeResult{"introspect:after-the-caller-wrote-into-what-was-returned", "violation:introspection: " + o3.Short(), ""})
+			} else {
+				out = append(out, ModeResult{"introspect:after-the-caller-wrote-into-what-was-returned", "pass", ""})
+			}
+		}
+	}
 	return out
 }
 
@@ -444,6 +483,9 @@ func execModelCase(c *Case) []ModeResult {
 		}
 		history = append(history, h)
 	}
+	if c.Prop == "C01" && len(mc.Calls) > 0 && len(mc.Calls[0].Reuse) == 0 {
+		res = append(res, defaultDomainSpelledOut(c, &mc, bytesModel)...)
+	}
 	if len(mc.Calls) > 0 && len(mc.Calls[0].Reuse) == 0 && skipsAnInput(mc.Model) {
 		res = append(res, strayEmptyName(c, &mc, bytesModel)...)
 	}
@@ -514,4 +556,36 @@ func shapeEq(a tensor.Shape, b []int) bool {
 		}
 	}
 	return true
+}
+
+// defaultDomainSpelledOut: "ai.onnx" is the name of the default operator set - a node that spells it out is the same node as one
+// that leaves its domain empty (ONNX IR). The first call is repeated on a fresh model whose nodes all carry domain "ai.onnx" and is
+// held to the outcome the specification gives for the first call.
+func defaultDomainSpelledOut(c *Case, mc *mCase, bytesModel []byte) []ModeResult {
+	mp := &onnx.ModelProto{}
+	if err := proto.Unmarshal(bytesModel, mp); err != nil || mp.Graph == nil {
+		return nil
+	}
+	for _, n := range mp.Graph.Node {
+		n.Domain = "ai.onnx"
+	}
+	b, err := proto.Marshal(mp)
+	if err != nil {
+		return nil
+	}
+	call := mc.Calls[0]
+	feed := gonnx.Tensors{}
+	for name, at := range call.Ins {
+		t, err := MkTensor(at)
+		if err != nil {
+			return nil
+		}
+		feed[name] = t
+	}
+	fresh, err := gonnx.NewModelFromBytes(b)
+	if err != nil {
+		return []ModeResult{{"call1:node-domain-ai.onnx", "violation:a model whose nodes spell out the default domain is refused at load: " + err.Error(), ""}}
+	}
+	obs := runCall(fresh, mc.Model.Outputs, feed)
+	return []ModeResult{{"call1:node-domain-ai.onnx", Verdict(&Case{Allowed: call.Allowed, Cmp: c.Cmp}, obs), obs.Short()}}
 }
